@@ -112,6 +112,17 @@ def _detached_twin_shapes():
     ]
 
 
+def _equal_descendant_shapes():
+    """A start node that is == to one of its own descendants (the child fields are compare=False)."""
+    L = lambda v: R("LLeaf", {"v": v})  # noqa: E731
+    N = lambda v, **k: R("LNcKid", {"v": v}, **k)  # noqa: E731
+    return [
+        N(1, kid=N(1, kid=L(2))),
+        N(1, kid=None, more=(N(1), L(3), N(1, kid=L(4)))),
+        R("LReq", child=N(5, kid=N(5, more=(L(6),)))),
+    ]
+
+
 def make_traversal_harness(shapes, detached: bool = False):
     def harness(e):
         LZ.lreset()
@@ -462,6 +473,8 @@ def spec(tier: str, seed: int) -> Spec:
     fams = [Family(f"trav[{k}:{k + chunk}]", make_traversal_harness(shapes[k : k + chunk]), variables=lazyv) for k in range(0, len(shapes), chunk)]
     for k, shp in enumerate(_detached_twin_shapes()):
         fams.append(Family(f"trav-detached-trees-with-equal-ids[{k}]", make_traversal_harness([shp], detached=True), variables=lazyv + "; trees built with create_detached=True whose content-equal cousins share an id"))
+    for k, shp in enumerate(_equal_descendant_shapes()):
+        fams.append(Family(f"trav-start-node-equal-to-a-descendant[{k}]", make_traversal_harness([shp]), variables=lazyv + "; node class whose child fields are compare=False"))
     paths = lpath_space(tier)
     pch = max(1, len(paths) // 48)
     fams += [Family(f"xpath[{k}:{k + pch}]", make_xpath_harness(paths[k : k + pch]), variables="selectors: xpath derivation, tree") for k in range(0, len(paths), pch)]
